@@ -5,6 +5,7 @@ mod enc;
 mod c09;
 mod c10;
 mod c13;
+mod c14;
 mod c02;
 mod c03;
 mod c04;
@@ -21,7 +22,7 @@ use crate::core::{Prop, Tier};
 use std::path::Path;
 
 pub fn props() -> Vec<&'static dyn Prop> {
-    vec![&c02::C02, &c03::C03, &c04::C04, &c05::C05, &c06::C06, &c07::C07, &c08::C08, &c09::C09, &c10::C10, &c13::C13]
+    vec![&c02::C02, &c03::C03, &c04::C04, &c05::C05, &c06::C06, &c07::C07, &c08::C08, &c09::C09, &c10::C10, &c13::C13, &c14::C14]
 }
 
 pub fn find(id: &str) -> Option<&'static dyn Prop> {
